@@ -521,6 +521,14 @@ class K:
                     if ok:
                         for perm in ([list(kw.items())] + ([list(reversed(list(kw.items())))] if len(kw) > 1 else [])):
                             spellings.append((args, dict(perm)))
+            # an equal mapping value written with another key order is the same binding
+            def reorder(v):
+                if isinstance(v, dict):
+                    return {k_: reorder(v[k_]) for k_ in reversed(list(v))}
+                if isinstance(v, list):
+                    return [reorder(x) for x in v]
+                return v
+            spellings = spellings + [([reorder(a) for a in args], {k_: reorder(v_) for k_, v_ in kw.items()}) for args, kw in spellings[:3]]
             k = K()
             results = []
             for args, kw in spellings:
